@@ -70,7 +70,27 @@ def engine_evaluation_order(ctx):
                       "the base ruleset can run before its drop-ins")
 
 
+def disabled_does_nothing(ctx):
+    """A disabled ruleset (disable-on-drop-in while a drop-in targets it) does nothing: every call of a program function in
+    Ruleset::prerun and Ruleset::runOnce is dominated by enabled_ being true.  Shared by C02 and C13."""
+    P = ctx.prog
+    rpre = ctx.fn1("Oomd::Engine::Ruleset::prerun")
+    for fn_, nm in ((rpre, "prerun"), (ctx.fn1("Oomd::Engine::Ruleset::runOnce"), "runOnce")):
+        f2 = Flow(P, fn_, cg=ctx.cg)
+        bad = []
+        for i in fn_.calls():
+            n = fn_.nodes[i]
+            if not ctx.prog.resolve(n.get("cusr", "")) and not n.get("virt"):
+                continue     # library-external helper calls (logging, containers)
+            if not has_fact(f2.guards(i), True, "this->enabled_"):
+                bad.append(fn_.loc(i))
+        ctx.check(not bad, "Ruleset::%s:disabled-does-nothing" % nm, "guarded_by", fn_.loc(),
+                  "every library call is dominated by enabled_ == true",
+                  "calls reachable while the ruleset is disabled: %s" % ", ".join(bad[:4]))
+
+
 def run(ctx):
+    saved_context_is_a_copy(ctx, "C02")
     resume_follows_clear(ctx, "C02")
     detector_walk_every_tick(ctx, "C02")
     # locals / parameters the rules below refer to by name (a rename makes the analysis 'broken', never a violation)
@@ -221,18 +241,7 @@ def run(ctx):
         ctx.check(parts is not None and not extra, "Ruleset::prerun:unconditional:" + name, "guarded_by",
                   rpre.loc(L["stmt"]), "loop runs whenever the ruleset is enabled",
                   "loop over %s is conditioned on %s" % (name, extra))
-    for fn_, nm in ((rpre, "prerun"), (ctx.fn1("Oomd::Engine::Ruleset::runOnce"), "runOnce")):
-        f2 = Flow(P, fn_, cg=ctx.cg)
-        bad = []
-        for i in fn_.calls():
-            n = fn_.nodes[i]
-            if not ctx.prog.resolve(n.get("cusr", "")) and not n.get("virt"):
-                continue     # library-external helper calls (logging, containers)
-            if not has_fact(f2.guards(i), True, "this->enabled_"):
-                bad.append(fn_.loc(i))
-        ctx.check(not bad, "Ruleset::%s:disabled-does-nothing" % nm, "guarded_by", fn_.loc(),
-                  "every library call is dominated by enabled_ == true",
-                  "calls reachable while the ruleset is disabled: %s" % ", ".join(bad[:4]))
+    disabled_does_nothing(ctx)
     ronce = ctx.fn1("Oomd::Engine::Ruleset::runOnce")
     impl_calls = ronce.calls("Ruleset::runOnceImpl")
     ctx.count("runOnceImpl_calls", len(impl_calls))
